@@ -167,6 +167,7 @@ class C03(Prop):
 
 class C04(Prop):
     id = "C04"; module = "Adsb.Theorems.C04"; design_ref = "5/C04"
+    modules = ["Adsb.Theorems.C04", "Adsb.Theorems.C10b"]
     deps = DECODER_LAYOUT + ["layout:enum DownlinkRequest", "layout:struct UtilityMessage", "layout:enum UtilityMessageType", "layout:enum FlightStatus",
             "layout:struct ControlField", "layout:enum ControlFieldType", "shape:ICAO::from_str", "shape:ICAO::fmt"]
     rule = ("every value of every header field (CA, CF, FS, DR, UM, VS, CC, SL, RI, AA: stratified 24-bit) x every payload type, other bits random; "
@@ -268,6 +269,7 @@ class C06(Prop):
 
 class C08(Prop):
     id = "C08"; module = "Adsb.Theorems.C08"; design_ref = "5/C08"
+    modules = ["Adsb.Theorems.C08", "Adsb.Theorems.C10b"]
     deps = ["layout:struct Identification", "layout:enum TypeCoding", "shape:aircraft_identification_read", "layout:enum BDS"]
     rule = ("all 64 codes x 8 positions x {DF17,DF18,DF20,DF21} with random other characters; all pairs of positions x sampled code pairs; "
             "random strings; all type codes 1-4 x category 0-7")
@@ -317,7 +319,7 @@ class C08(Prop):
 
 class C09(Prop):
     id = "C09"; module = "Adsb.Theorems.C09"; design_ref = "5/C09"
-    modules = ["Adsb.Theorems.C09", "Adsb.Theorems.C06b"]
+    modules = ["Adsb.Theorems.C09", "Adsb.Theorems.C06b", "Adsb.Theorems.C10b"]
     deps = ["layout:struct IdentityCode", "shape:IdentityCode::read", "shape:decode_id13_field", "layout:struct AircraftStatus",
             "layout:enum AircraftStatusType", "layout:enum EmergencyState"]
     rule = "exhaustive: all 8192 identity codes x {DF5, DF21, DF17/18 type 28}; all 64 subtype/emergency combinations; surrounding bits random"
@@ -362,7 +364,7 @@ ME_FIELDS = {   # kind -> list of (ME first bit, width)
 
 class C10(Prop):
     id = "C10"; module = "Adsb.Theorems.C10"; design_ref = "5/C10"
-    modules = ["Adsb.Theorems.C10", "Adsb.Theorems.C06b"]
+    modules = ["Adsb.Theorems.C10", "Adsb.Theorems.C06b", "Adsb.Theorems.C10b"]
     deps = ["layout:struct Altitude", "layout:struct SurfacePosition", "layout:struct TargetStateAndStatusInformation", "layout:enum OperationStatus",
             "layout:struct OperationStatusAirborne", "layout:struct OperationStatusSurface", "layout:struct CapabilityClassAirborne",
             "layout:struct CapabilityClassSurface", "layout:struct OperationalMode", "layout:enum ADSBVersion", "layout:struct DataLinkCapability",
@@ -423,7 +425,7 @@ class C10(Prop):
 
 class C07(Prop):
     id = "C07"; module = "Adsb.Theorems.C07"; design_ref = "5/C07"
-    modules = ["Adsb.Theorems.C07", "Adsb.Theorems.C07b", "Adsb.Theorems.C06b"]
+    modules = ["Adsb.Theorems.C07", "Adsb.Theorems.C07b", "Adsb.Theorems.C06b", "Adsb.Theorems.C10b"]
     deps = ["layout:struct AirborneVelocity", "layout:enum AirborneVelocitySubType", "layout:struct GroundSpeedDecoding", "layout:struct AirspeedDecoding",
             "shape:AirborneVelocity::calculate", "layout:enum Sign", "layout:enum VerticalRateSource"]
     tol = 2e-6
